@@ -52,6 +52,37 @@ template<int I> struct RuleF {
     }
 };
 
+// ------------------------------------------------------------------ scripted custom lexer (C18): answers come from the explorer
+struct LexAsk { int off; int answer; };            // answer: -1 fail, else idx * 64 + len
+struct LexScript {
+    std::vector<int> choices;       // choice prefix to replay, then defaults (0)
+    std::vector<int> taken, alts;   // what this run chose / how many alternatives existed at each ask
+    std::vector<LexAsk> asks;       // every match() call in order
+    int T = 0; long remaining_base = 0; const char* end = nullptr;
+    void begin(int T_, const char* b, size_t n, const std::vector<int>& prefix) { T = T_; end = b + n; choices = prefix; taken.clear(); alts.clear(); asks.clear(); }
+};
+extern LexScript g_script;
+inline const char* ptr_of(const char* p) { return p; }
+template<class It> auto ptr_of(const It& it) -> decltype(it.ptr) { return it.ptr; }
+template<class It> auto ptr_of(const It& it) -> decltype(it.p) { return it.p; }
+struct ScriptedLexer {
+    template<typename Iterator, typename ErrorStream>
+    ctpg::recognized_term match(ctpg::match_options, ctpg::source_point, Iterator start, Iterator, ErrorStream&) {
+        step();
+        const char* p = ptr_of(start);
+        int off = int(p - g_obs.base); int remaining = int(g_script.end - p);
+        for (const LexAsk& a : g_script.asks) if (a.off == off) { g_script.asks.push_back(a); return a.answer < 0 ? ctpg::recognized_term{} : ctpg::recognized_term(ctpg::size16_t(a.answer / 64), size_t(a.answer % 64)); }
+        int nalt = g_script.T * remaining + 1;    // (idx, len) pairs in order of len then idx, failure last
+        size_t k = g_script.taken.size();
+        int c = k < g_script.choices.size() ? g_script.choices[k] : 0;
+        if (c >= nalt) throw HarnessStop{"script-divergence"};
+        g_script.taken.push_back(c); g_script.alts.push_back(nalt);
+        int answer = c == nalt - 1 ? -1 : (c % g_script.T) * 64 + (c / g_script.T + 1);
+        g_script.asks.push_back(LexAsk{off, answer});
+        return answer < 0 ? ctpg::recognized_term{} : ctpg::recognized_term(ctpg::size16_t(answer / 64), size_t(answer % 64));
+    }
+};
+
 // ------------------------------------------------------------------ a user-defined buffer that checks every access
 struct BufFault { long deref_end = 0, deref_out = 0, move_out = 0; long reads = 0; long high_water = -1; void reset() { *this = BufFault{}; } bool any() const { return deref_end || deref_out || move_out; } };
 extern BufFault g_buf;
@@ -122,6 +153,7 @@ struct FrameBase {
     std::vector<std::vector<char>> iserr;   // [rule][pos]
     int max_cstr = 0;                        // cstring_buffer sizes instantiated: input lengths 0..max_cstr-1... (0 = none)
     std::string name;
+    bool custom_lexer = false;               // terms are custom_term, lexer is the scripted use_lexer<>
     bool seed_only = false;                  // registered for explicit seed grammars only, never enumerated
     virtual ~FrameBase() {}
     virtual BuildResult build(const ref::Gram& g) = 0;
@@ -153,7 +185,9 @@ struct Frame<NT_, T_, std::integer_sequence<int, N...>, std::integer_sequence<in
         static type make() { return type(RuleF<I>{}, NTm("N0"), std::tuple<sym_t<J>...>(mk<sym_t<J>>()...)); }
     };
     template<size_t> using nt_always = NTm;
-    template<int K> using term_t = ctpg::typed_term<ctpg::char_term, TermF<K>>;
+    static constexpr bool Custom = MaxC < 0;
+    template<int K> using term_t = std::conditional_t<Custom, ctpg::custom_term<TermF<K>>, ctpg::typed_term<ctpg::char_term, TermF<K>>>;
+    using lexer_usage_t = std::conditional_t<Custom, ctpg::use_lexer<ScriptedLexer>, ctpg::use_generated_lexer>;
 
     template<typename = std::make_index_sequence<T_>, typename = std::make_index_sequence<NT_>, typename = std::make_index_sequence<Rn>> struct Types;
     template<size_t... TI, size_t... NI, size_t... RI>
@@ -161,13 +195,15 @@ struct Frame<NT_, T_, std::integer_sequence<int, N...>, std::integer_sequence<in
         using terms_t = std::tuple<term_t<(int)TI>...>;
         using nterms_t = std::tuple<nt_always<NI>...>;
         using rules_t = std::tuple<typename RuleOf<(int)RI>::type...>;
-        using parser_t = ctpg::parser<NTm, terms_t, nterms_t, rules_t, ctpg::use_generated_lexer, ctpg::default_limits>;
+        using parser_t = ctpg::parser<NTm, terms_t, nterms_t, rules_t, lexer_usage_t, ctpg::default_limits>;
         static parser_t* make() {
             static const char* names[] = {"N0", "N1", "N2", "N3", "N4", "N5"};
-            terms_t ts{term_t<(int)TI>(ctpg::char_term(char(97 + TI)), TermF<(int)TI>{})...};
+            static const char* tnames[] = {"a", "b", "c", "d", "e", "f"};
+            auto mkterm = [](auto idx) { constexpr int K = decltype(idx)::value; if constexpr (Custom) return term_t<K>(tnames[K], TermF<K>{}); else return term_t<K>(ctpg::char_term(char(97 + K)), TermF<K>{}); };
+            terms_t ts{mkterm(std::integral_constant<int, (int)TI>{})...};
             nterms_t ns{NTm(names[NI])...};
             rules_t rs{RuleOf<(int)RI>::make()...};
-            return new parser_t(NTm("N0"), ts, ns, std::move(rs));
+            return new parser_t(NTm("N0"), ts, ns, std::move(rs), lexer_usage_t{});
         }
     };
     using P = typename Types<>::parser_t;
@@ -177,11 +213,12 @@ struct Frame<NT_, T_, std::integer_sequence<int, N...>, std::integer_sequence<in
     void* sa_mem = nullptr;
 
     Frame() {
-        NT = NT_; T = T_; R = Rn; max_cstr = MaxC;
+        NT = NT_; T = T_; R = Rn; max_cstr = MaxC < 0 ? 0 : MaxC; custom_lexer = Custom;
         for (int i = 0; i < Rn; ++i) { arity.push_back(arr[i]); std::vector<char> e; for (int j = 0; j < arr[i]; ++j) e.push_back(is_err(i, j)); iserr.push_back(e); }
         name = "NT" + std::to_string(NT) + "T" + std::to_string(T) + "[";
         for (int i = 0; i < Rn; ++i) { name += std::to_string(arr[i]); }
         name += "]";
+        if (Custom) name += "L";
         for (int i = 0; i < Rn; ++i) for (int j = 0; j < arr[i]; ++j) if (is_err(i, j)) name += "e" + std::to_string(i) + std::to_string(j);
         p = Types<>::make();
         sa_mem = ::operator new(sizeof(SA));
@@ -259,7 +296,7 @@ struct Frame<NT_, T_, std::integer_sequence<int, N...>, std::integer_sequence<in
     std::string diag() override { std::ostringstream o; p->write_diag_str(o); return o.str(); }
 
     template<size_t Nn> ParseObs parse_cstr(const char* data, size_t len) {
-        if constexpr (Nn > (size_t)MaxC) { (void)data; (void)len; ParseObs o; o.supported = false; return o; }
+        if constexpr (MaxC < 0 || Nn > (size_t)(MaxC < 0 ? 0 : MaxC)) { (void)data; (void)len; ParseObs o; o.supported = false; return o; }
         else {
             if (len + 1 != Nn) return parse_cstr<Nn + 1>(data, len);
             char arr2[Nn]; for (size_t i = 0; i < len; ++i) arr2[i] = data[i]; arr2[Nn - 1] = 0;
